@@ -560,7 +560,31 @@ def x5_list_headers(ctx):
 
 OPTIONAL_RULES = []  # X5 is armed since the repair d8a2f7a in /repo
 
-RULES = [("C20.R1", r1_four_checks), ("C20.R2", r2_accept_digest), ("C20.R3", r3_switching_and_handoff), ("C20.R4", r4_no_bypass), ("C20.X5", x5_list_headers)]
+
+def r6_both_transports_upgradeable(ctx):
+    """Added after adversary change C20-B (the TLS accept arm served connections with `serve_connection`, which answers
+    101 but never hands the upgraded connection over): every accepted connection must be served with upgrade support."""
+    from .lib_c16 import server_task
+    R = ctx.rule("C20.R6", "every connection, plain or TLS, is served with hyper's upgrade support (serve_connection_with_upgrades), so a 101 is followed by the hand-off to the channel handler", floor=2)
+    stt = server_task(ctx.ds)
+    if isinstance(stt, str):
+        ctx.lost(R, stt)
+        return
+    st, sp, co, node = stt
+    sites = []
+    for f in ctx.ds.F.values():
+        if f.id.startswith(("test_util", "logging")):
+            continue
+        for bb, t in f.live_calls(r"::serve_connection(_with_upgrades)?$"):
+            sites.append((f, bb, t))
+    for f, bb, t in sites:
+        ok = t["callee"].endswith("serve_connection_with_upgrades")
+        ctx.check(R, "serve-site:%s" % ("with-upgrades" if ok else "without-upgrades"), ok and f is co,
+                  "%s in %s" % (t["callee"].split("::")[-1], f.id), (f, bb))
+    ctx.check(R, "two-transports", len(sites) == 2, "connection-serving call sites: %d (HTTP and HTTPS accept arms)" % len(sites), co)
+
+
+RULES = [("C20.R6", r6_both_transports_upgradeable), ("C20.R1", r1_four_checks), ("C20.R2", r2_accept_digest), ("C20.R3", r3_switching_and_handoff), ("C20.R4", r4_no_bypass), ("C20.X5", x5_list_headers)]
 
 WS = "dropshot/src/websocket.rs"
 _VER_HEAD = """        if request
@@ -633,3 +657,5 @@ SELFTEST = [
                 "            })\n        {\n            match () {\n                () => return Err(HttpError::for_bad_request(\n                    None,\n                    \"expected connection upgrade\".to_string(),\n                )),\n            }\n        }")],
      "why": "behaviour-preserving: a log line on the accept path, the early return wrapped in a match"},
 ]
+
+LEVEL_TEXT += ' Also (X5): every field line of the list-valued handshake headers is consulted and SP/HTAB are list whitespace; (R6): plain and TLS connections are both served with upgrade support.'
